@@ -608,6 +608,69 @@ def r6_identity(ctx, rule="C10.R6"):
                                 f"`{src(node)}` compares cached / reconstructible objects by identity: the answer depends on whether the "
                                 f"Parent cache still holds the entry", (fn, node))
     r.ok(rule, "inscripta.biocantor", "no identity comparison on Parent / Location / Sequence values", None, f"{n} suspects")
+    # identity used as a key of state that outlives the call (module-level / class-level / instance containers): an entry keyed
+    # by id(x) outlives x, and the interpreter hands the address of a released object to the next one - the answer then depends
+    # on which objects existed before.  Containers local to one call are fine (their keys are alive for as long as they are).
+    m = 0
+    for fn in repo.all_funcs():
+        for node, cont in _id_keyed_state(fn.node, set(fn.module.assigns)):
+            m += 1
+            r.violation(rule, fn.qual, f"identity-keyed state `{src(node)[:60]}`",
+                        f"`{src(node)[:80]}` files a value under id(...) in `{cont}`, which lives longer than the call: once the object "
+                        f"is released its address is reused and another object is served the stale entry (answers depend on history)",
+                        (fn, node))
+    probe = ast.parse("_T = {}\ndef f(x):\n    if id(x) not in _T:\n        _T[id(x)] = 1\n    seen = set()\n    seen.add(id(x))\n    return _T[id(x)]\n")
+    hits = _id_keyed_state(probe.body[1], {"_T"})
+    if len(hits) != 3:
+        raise AnalysisError(f"{rule}: the identity-keyed-state detector no longer recognises its own example ({len(hits)} of 3)")
+    r.ok(rule, "inscripta.biocantor", "no state keyed by object identity outlives a call", None, f"{m} suspects; detector example recognised")
+
+
+def _id_keyed_state(fnode, module_names):
+    """(node, container text) for uses of id(...) as a key into a container that is not local to the function"""
+    local = set()
+    for n in walk_shallow(fnode):
+        if isinstance(n, ast.Assign):
+            for t in n.targets:
+                if isinstance(t, ast.Name):
+                    local.add(t.id)
+        elif isinstance(n, (ast.AnnAssign, ast.AugAssign)) and isinstance(n.target, ast.Name):
+            local.add(n.target.id)
+    globs = {nm for n in walk_shallow(fnode) if isinstance(n, ast.Global) for nm in n.names}
+    local -= globs
+
+    def is_id_call(x):
+        return isinstance(x, ast.Call) and isinstance(x.func, ast.Name) and x.func.id == "id" and len(x.args) == 1
+
+    def outlives(c):
+        d = dotted(c)
+        if not d:
+            return None
+        head = d.split(".")[0]
+        if head in ("self", "cls") and "." in d:
+            return d
+        if head in local:
+            return None
+        if head in module_names or head in globs or head[:1].isupper():
+            return d
+        return None
+
+    out = []
+    for n in walk_shallow(fnode):
+        if isinstance(n, ast.Subscript) and is_id_call(n.slice):
+            c = outlives(n.value)
+            if c:
+                out.append((n, c))
+        elif isinstance(n, ast.Compare) and is_id_call(n.left) and len(n.ops) == 1 and isinstance(n.ops[0], (ast.In, ast.NotIn)):
+            c = outlives(n.comparators[0])
+            if c:
+                out.append((n, c))
+        elif isinstance(n, ast.Call) and isinstance(n.func, ast.Attribute) and n.func.attr in ("get", "setdefault", "pop", "add", "__contains__") \
+                and n.args and is_id_call(n.args[0]):
+            c = outlives(n.func.value)
+            if c:
+                out.append((n, c))
+    return out
 
 
 RULES = [
